@@ -70,8 +70,17 @@ def check_text(case, ev):
         kinds.append(kind)
         line += sp + sep
         want += e + sep
+    from netconan.ip_anonymization import anonymize_ip_addr
+
+    if case.get("prelude"):
+        # an earlier anonymizer with other options sees the same tokens first (same process)
+        pa, exc = guarded(G.mk4, case["prelude"])
+        if exc is not None:
+            return core.exc_finding(exc, case, "ctor/")
+        _, exc = guarded(anonymize_ip_addr, pa, line)
+        if exc is not None:
+            return core.exc_finding(exc, case, "prelude/")
     if case["via"] == "line":
-        from netconan.ip_anonymization import anonymize_ip_addr
 
         an, exc = guarded(G.mk4, cfg)
         if exc is not None:
@@ -87,7 +96,7 @@ def check_text(case, ev):
     if exc is not None:
         return core.exc_finding(exc, case, "text/")
     nt = "preserved" in kinds or any(k == "anonymized" and G.is_mask(n ^ (1 << b)) for (n, _), k in zip(toks, kinds) for b in (0, 7, 8, 15, 16, 23, 24, 31))
-    ev.case(case, nt, ["via-" + case["via"]] + kinds + (["spelled-noncanonical"] if any(sp.split("/")[0] != G.v4_canon(n) for n, sp in toks) else []))
+    ev.case(case, nt, ["via-" + case["via"]] + (["after-other-anonymizer"] if case.get("prelude") else []) + kinds + (["spelled-noncanonical"] if any(sp.split("/")[0] != G.v4_canon(n) for n, sp in toks) else []))
     if got != want:
         # which token class went wrong (first difference)
         gp = got.split()
@@ -149,11 +158,14 @@ def _text_case(draw):
             n = draw(G.addr_near(cfg["networks"]))
         else:
             n = draw(G.u32)
+        if toks and draw(st.integers(0, 4)) == 0:
+            n = draw(st.sampled_from(toks))[0]  # the same value again, usually in another spelling
         toks.append([n, draw(G.v4_spelling(n))])
     seps = [draw(st.sampled_from(["", " ", "ip address ", " permit ip "]))]
     for i in range(len(toks)):
         seps.append(draw(_SEPS) if i < len(toks) - 1 else draw(st.sampled_from(["", " ", " log", ";"])))
-    return {"cfg": cfg, "via": draw(st.sampled_from(["line", "io"])), "toks": toks, "seps": seps}
+    prelude = draw(G.config()) if draw(st.integers(0, 2)) == 0 else None
+    return {"cfg": cfg, "via": draw(st.sampled_from(["line", "io"])), "toks": toks, "seps": seps, "prelude": prelude}
 
 
 @st.composite
